@@ -61,7 +61,7 @@ Print Assumptions C09_split_objects.
 
 (* histories with split keep the full invariant *)
 Theorem C09_histories_with_split : forall ct st ops,
-  consts_nonzero ct -> XGood ct st -> xguarded ct st ops -> XGood ct (xrun ct st ops).
+  XGood ct st -> xguarded ct st ops -> XGood ct (xrun ct st ops).
 Proof. exact xgood_run. Qed.
 Print Assumptions C09_histories_with_split.
 
